@@ -93,9 +93,9 @@ V_Cands(r, t, act) ==
   ELSE IF act.type = "recharge" THEN
      { [loc |-> x.loc, dur |-> x.dur, tag |-> x.tag, tws |-> x.tws] : x \in V_Range(V_Shift(r, t).recharge.stations) }
   ELSE IF act.type = "break" THEN
-     { [loc |-> IF b.loc = 0 THEN act.loc ELSE b.loc, dur |-> b.dur, tag |-> b.tag,
-        tws |-> IF b.isOffset THEN << <<t.flat[1].end + b.tws[1][1], t.flat[1].end + b.tws[1][2]>> >> ELSE b.tws]
-       : b \in V_Range(V_Shift(r, t).breaks) }
+     UNION { { [loc |-> IF p.loc = 0 THEN act.loc ELSE p.loc, dur |-> p.dur, tag |-> p.tag,
+                tws |-> IF b.isOffset THEN << <<t.flat[1].end + b.tws[1][1], t.flat[1].end + b.tws[1][2]>> >> ELSE b.tws]
+               : p \in V_Range(b.places) } : b \in V_Range(V_Shift(r, t).breaks) }
   ELSE {}
 
 \* place p explains activity act reached at time cur: location, service start inside one window of the place
@@ -227,8 +227,8 @@ ConditionalDistinct(r) == \A k \in 1..Len(r.tours) :
        brs == SelectSeq(t.flat, LAMBDA a : a.type = "break")
        rls == SelectSeq(t.flat, LAMBDA a : a.type = "reload")
    IN /\ V_Injective(Len(brs), Len(sh.breaks),
-                     LAMBDA a, b : (sh.breaks[b].loc = 0 \/ sh.breaks[b].loc = brs[a].loc)
-                                   /\ sh.breaks[b].dur = brs[a].end - brs[a].start /\ sh.breaks[b].tag = brs[a].tag)
+                     LAMBDA a, b : \E p \in V_Range(sh.breaks[b].places) :
+                                      (p.loc = 0 \/ p.loc = brs[a].loc) /\ p.dur = brs[a].end - brs[a].start /\ p.tag = brs[a].tag)
       /\ V_Injective(Len(rls), Len(sh.reloads),
                      LAMBDA a, b : sh.reloads[b].loc = rls[a].loc /\ sh.reloads[b].dur = rls[a].end - rls[a].start
                                    /\ sh.reloads[b].tag = rls[a].tag)
